@@ -10,14 +10,14 @@ R-ONCE  a caller-supplied iterable feeds the two sides from one consumption only
 R-BOTH  coarse rule for the one named exception (random_edge_shuffle).
 """
 from ..report import Result
-from .incidence_rules import check_enc, check_fresh, run_class
+from .incidence_rules import check_enc, check_fresh, check_share, run_class
 
 PROP = "C01"
 
 
 def run(ctx):
     res = Result(PROP)
-    res.rules = ["R-ENC", "R-EXIT", "R-INC", "R-ATTR", "R-EXC", "R-ONCE", "R-BOTH", "U-OWN", "U-COPY", "U-FUNC", "U-PROV", "U-GUARD", "U-BUMP"]
+    res.rules = ["R-ENC", "R-EXIT", "R-INC", "R-ATTR", "R-EXC", "R-ONCE", "R-SHARE", "R-BOTH", "U-OWN", "U-COPY", "U-FUNC", "U-PROV", "U-GUARD", "U-BUMP"]
     res.explanation = (
         "Induction over edit histories done on the code: R-ENC shows every history is a sequence of core-method "
         "executions; for each writer method of Hypergraph (per valuation of its boolean mode parameters) a structured "
@@ -28,5 +28,6 @@ def run(ctx):
     eng = run_class(ctx, res, PROP, "Hypergraph", False, 13, skip=("__init__", "__setstate__"))
     if not ctx.only:
         check_enc(ctx, res, PROP, eng)
+        check_share(ctx, res, PROP, "Hypergraph")
         check_fresh(ctx, res, PROP, ("Hypergraph",))
     return res
